@@ -27,6 +27,7 @@ type Program struct {
 	fidx  *funcIndex
 	noret map[*FuncInfo]bool
 	callSites map[*types.Func][]site
+	live      map[*FuncInfo]bool
 
 	
 	
